@@ -38,9 +38,7 @@ pub fn gen(seed: u64, tier: Tier) -> ScenarioSpec {
     spec.sink = gen::gen_sink(&mut rng, false);
     spec.opts.compute_hash = rng.chance(1, 2);
     spec.compression = *rng.pick(&[Compression::None, Compression::Lz4, Compression::Zstd]);
-    if rng.chance(1, 5) {
-        spec.knobs.insert("prelude".into(), *rng.pick(&[1i64, 3]));
-    }
+    spec.knobs.insert("prelude".into(), gen_prelude(&mut rng, &[1, 3, 5], 3));
     if rng.chance(1, 10) {
         // the disk fills up while the archive is being written
         spec.sink.enospc_after = Some(rng.below(2 * len as u64 + 12_000));
